@@ -35,7 +35,7 @@ Fixpoint run_sched {A} (s : nat -> option errno) (n : nat) (t : fs B) (p : prog 
       end
   end.
 
-Fixpoint run_fault {A} (k : nat) (e : errno) (t : fs B) (p : prog B A) : A * fs B :=
+Fixpoint run_fault {A} (k : nat) (e : errno) (t : fs B) (p : prog B A) {struct p} : A * fs B :=
   match p with
   | Ret a => (a, t)
   | Do c kont =>
@@ -48,7 +48,7 @@ Fixpoint run_fault {A} (k : nat) (e : errno) (t : fs B) (p : prog B A) : A * fs 
 (* number of calls of the fault-free run *)
 Definition ncalls {A} (t : fs B) (p : prog B A) : nat := length (trace B empty t p).
 
-Fixpoint run_cut {A} (k : nat) (t : fs B) (p : prog B A) : fs B :=
+Fixpoint run_cut {A} (k : nat) (t : fs B) (p : prog B A) {struct p} : fs B :=
   match p with
   | Ret _ => t
   | Do c kont =>
